@@ -122,51 +122,96 @@ def isTrue : Val → Bool
 def dedupRows (rows : List (List Val × α)) : List (List Val × α) :=
   (rows.foldl (fun acc r => if acc.any (fun x => rowSame x.1 r.1) then acc else r :: acc) []).reverse
 
-/-- scalar (non-aggregate, non-set-returning) functions -/
-def applyFn (db : Db) (fn : String) (args : List Val) : EM Val :=
-  match fn, args with
-  | "jsonb_typeof", [.null] => .ok .null
-  | "jsonb_typeof", [.jsonb j] => .ok (.text j.typeName)
-  | "to_jsonb", [v] => (match v with | .null => .ok .null | _ => do let j ← toJsonb v; pure (.jsonb j))
-  | "jsonb_array_length", [.null] => .ok .null
-  | "jsonb_array_length", [.jsonb (.arr xs)] => .ok (.int xs.length)
-  | "jsonb_array_length", [.jsonb _] => .error (.runtime "cannot get array length of a non-array")
-  | "jsonb_to_text_array", [.null] => .ok .null
-  | "jsonb_to_text_array", [.jsonb .null] => .ok .null
-  | "jsonb_to_text_array", [.jsonb (.arr xs)] =>
+def fnJsonbTypeof : List Val → EM Val
+  | [.null] => .ok .null
+  | [.jsonb j] => .ok (.text j.typeName)
+  | _ => .error (.typing "jsonb_typeof arguments")
+
+def fnToJsonb : List Val → EM Val
+  | [.null] => .ok .null
+  | [v] => do let j ← toJsonb v; pure (.jsonb j)
+  | _ => .error (.typing "to_jsonb arguments")
+
+def fnJsonbArrayLength : List Val → EM Val
+  | [.null] => .ok .null
+  | [.jsonb (.arr xs)] => .ok (.int xs.length)
+  | [.jsonb _] => .error (.runtime "cannot get array length of a non-array")
+  | _ => .error (.typing "jsonb_array_length arguments")
+
+def fnJsonbToTextArray : List Val → EM Val
+  | [.null] => .ok .null
+  | [.jsonb .null] => .ok .null
+  | [.jsonb (.arr xs)] =>
     .ok (.arr (xs.map (fun x => match x with | .null => Val.null | _ => match jsonScalarText x with | some s => .text s | none => .null)))
-  | "jsonb_to_text_array", [.jsonb _] => .error (.runtime "cannot extract elements from a scalar / object")
-  | "jsonb_build_object", [] => .ok (.jsonb (.obj []))
-  | "lower", [.null] => .ok .null
-  | "lower", [.text s] => .ok (.text s.toLower)
-  | "upper", [.null] => .ok .null
-  | "upper", [.text s] => .ok (.text s.toUpper)
-  | "cardinality", [.null] => .ok .null
-  | "cardinality", [.arr xs] => .ok (.int xs.length)
-  | "array_length", [.null, _] => .ok .null
-  | "array_length", [.arr xs, .int 1] => .ok (if xs.isEmpty then .null else .int xs.length)
-  | "array_remove", [.null, _] => .ok .null
-  | "array_remove", [.arr xs, x] => .ok (.arr (xs.filter (fun v => !vSame v x)))
-  | "kind_name", [.null] => .ok .null
-  | "kind_name", [.int i] =>
+  | [.jsonb _] => .error (.runtime "cannot extract elements from a scalar / object")
+  | _ => .error (.typing "jsonb_to_text_array arguments")
+
+def fnText (f : String → String) : List Val → EM Val
+  | [.null] => .ok .null
+  | [.text s] => .ok (.text (f s))
+  | _ => .error (.typing "text function arguments")
+
+def fnCardinality : List Val → EM Val
+  | [.null] => .ok .null
+  | [.arr xs] => .ok (.int xs.length)
+  | _ => .error (.typing "cardinality arguments")
+
+def fnArrayLength : List Val → EM Val
+  | [.null, _] => .ok .null
+  | [.arr xs, .int 1] => .ok (if xs.isEmpty then .null else .int xs.length)
+  | _ => .error (.unmodelled "array_length arguments")
+
+def fnArrayRemove : List Val → EM Val
+  | [.null, _] => .ok .null
+  | [.arr xs, x] => .ok (.arr (xs.filter (fun v => !vSame v x)))
+  | _ => .error (.typing "array_remove arguments")
+
+def fnKindName (db : Db) : List Val → EM Val
+  | [.null] => .ok .null
+  | [.int i] =>
     (match db.table? "kind" with
      | some t => .ok (((t.rows.find? (fun r => match r with | .int k :: _ => k == i | _ => false)).bind (fun r => r[1]?)).getD .null)
      | none => .error (.name "kind"))
-  | "start_node", [.null] => .ok .null
-  | "start_node", [.row _ [_, .int s, _, _, _]] => .ok ((nodeRowOf db s).getD .null)
-  | "end_node", [.null] => .ok .null
-  | "end_node", [.row _ [_, _, .int e, _, _]] => .ok ((nodeRowOf db e).getD .null)
-  | "cypher_contains", [.text h, .text n] => .ok (.bool (strposGt0 h n))
-  | "cypher_starts_with", [.text h, .text p] => .ok (.bool (h.startsWith p))
-  | "cypher_ends_with", [.text h, .text s] => .ok (.bool (h.endsWith s))
-  | "cypher_contains", [_, _] => .ok .null          -- strict: NULL argument
-  | "cypher_starts_with", [_, _] => .ok .null
-  | "cypher_ends_with", [_, _] => .ok .null
-  | "ordered_edges_to_path", [r, e, k] => orderedEdgesToPath db r e k
-  | "shortest_path_self_endpoint_error", [.null, _] => .ok .null
-  | "shortest_path_self_endpoint_error", [_, .null] => .ok .null
-  | "shortest_path_self_endpoint_error", [_, _] => .error (.runtime "shortest path root and terminal are the same node")
-  | f, _ => .error (.unmodelled ("function " ++ f))
+  | _ => .error (.typing "kind_name arguments")
+
+def fnEndpoint (db : Db) (start : Bool) : List Val → EM Val
+  | [.null] => .ok .null
+  | [.row _ [_, .int s, .int e, _, _]] => .ok ((nodeRowOf db (if start then s else e)).getD .null)
+  | _ => .error (.typing "start_node / end_node arguments")
+
+def fnCypherStr (f : String → String → Bool) : List Val → EM Val
+  | [.text h, .text n] => .ok (.bool (f h n))
+  | [_, _] => .ok .null          -- strict: NULL argument
+  | _ => .error (.typing "cypher string function arguments")
+
+def fnSelfEndpointError : List Val → EM Val
+  | [.null, _] => .ok .null
+  | [_, .null] => .ok .null
+  | [_, _] => .error (.runtime "shortest path root and terminal are the same node")
+  | _ => .error (.typing "shortest_path_self_endpoint_error arguments")
+
+/-- scalar (non-aggregate, non-set-returning) functions -/
+def applyFn (db : Db) (fn : String) (args : List Val) : EM Val :=
+  match fn with
+  | "jsonb_typeof" => fnJsonbTypeof args
+  | "to_jsonb" => fnToJsonb args
+  | "jsonb_array_length" => fnJsonbArrayLength args
+  | "jsonb_to_text_array" => fnJsonbToTextArray args
+  | "jsonb_build_object" => (match args with | [] => .ok (.jsonb (.obj [])) | _ => .error (.unmodelled "jsonb_build_object arguments"))
+  | "lower" => fnText String.toLower args
+  | "upper" => fnText String.toUpper args
+  | "cardinality" => fnCardinality args
+  | "array_length" => fnArrayLength args
+  | "array_remove" => fnArrayRemove args
+  | "kind_name" => fnKindName db args
+  | "start_node" => fnEndpoint db true args
+  | "end_node" => fnEndpoint db false args
+  | "cypher_contains" => fnCypherStr strposGt0 args
+  | "cypher_starts_with" => fnCypherStr (fun h p => h.startsWith p) args
+  | "cypher_ends_with" => fnCypherStr (fun h p => h.endsWith p) args
+  | "ordered_edges_to_path" => (match args with | [r, e, k] => orderedEdgesToPath db r e k | _ => .error (.typing "ordered_edges_to_path arguments"))
+  | "shortest_path_self_endpoint_error" => fnSelfEndpointError args
+  | f => .error (.unmodelled ("function " ++ f))
 
 def sortFamily : Val → Option Nat
   | .null => none
@@ -210,6 +255,21 @@ def intArg (v : Val) : EM Nat :=
   match v with
   | .int i => if i < 0 then .error (.runtime "OFFSET / LIMIT must not be negative") else .ok i.toNat
   | _ => .error (.unmodelled "non-integer OFFSET / LIMIT")
+
+/-- ORDER BY: stable sort on the key tuples (no keys: the order is unchanged) -/
+def orderRows {α : Type} (keyed : List (List (Val × Bool) × α)) : EM (List α) :=
+  if keysComparable (keyed.map (·.1)) then .ok ((sortBy (fun a b => keysLe a.1 b.1) keyed).map (·.2))
+  else .error (.typing "ORDER BY over values of different types")
+
+/-- OFFSET then LIMIT (LIMIT NULL = no limit) -/
+def cutRows {α : Type} (off lim : Option Val) (rows : List α) : EM (List α) := do
+  let rows ← (match off with
+    | some v => do let k ← intArg v; pure (rows.drop k)
+    | none => pure rows)
+  match lim with
+  | some .null => pure rows
+  | some v => do let k ← intArg v; pure (rows.take k)
+  | none => pure rows
 
 def nullBinding (alias : String) (cols : List String) : Binding := ⟨alias, cols, cols.map (fun _ => Val.null)⟩
 
@@ -407,7 +467,7 @@ termination_by ws els => (sizeOf ws + sizeOf els, 0)
 def evalAggregate (E : EEnv) (rows : List Level) (fn : String) (distinct : Bool) : List Expr → EM Val
   | [.wildcard] => if fn == "count" then .ok (.int rows.length) else .error (.unmodelled "aggregate(*)")
   | [arg] => do
-    let vs ← rows.mapM (fun r => evalExpr (E.withRow r) arg)
+    let vs ← rows.mapE (fun r => evalExpr (E.withRow r) arg)
     let nonNull := vs.filter (fun v => match v with | .null => false | _ => true)
     let nonNull := if distinct then (dedupRows (nonNull.map (fun v => ([v], ())))).map (fun p => p.1.headD .null) else nonNull
     match fn with
@@ -458,10 +518,10 @@ def evalJoin (E : EEnv) (partials : List Level) (kind : JoinKind) (item : FromIt
   | .rightOuter => .error (.unmodelled "right-outer-join")
   | .fullOuter => .error (.unmodelled "full-outer-join")
   | _ =>
-    let outs ← partials.mapM (fun lvl => do
+    let outs ← partials.mapE (fun lvl => do
       let (a, cols, rows) ← evalFromItem (E.push lvl) item
       let cands := rows.map (fun r => lvl ++ [(⟨a, cols, r⟩ : Binding)])
-      let kept ← cands.filterM (fun l => match on with
+      let kept ← cands.filterE (fun l => match on with
         | none => pure true
         | some c => do let v ← evalExpr (E.push l) c; pure (isTrue v))
       if kept.isEmpty && kind == .leftOuter then pure [lvl ++ [nullBinding a cols]] else pure kept)
@@ -534,7 +594,7 @@ def evalSetExpr (E : EEnv) : SetExpr → EM (List String × List (List Val × Op
   | .select distinct proj frm wh groupBy having => do
     if having.isSome then .error (.unmodelled "having") else
     let rows ← evalFromClauses E [[]] frm
-    let rows ← rows.filterM (fun l => match wh with
+    let rows ← rows.filterE (fun l => match wh with
       | none => pure true
       | some c => do let v ← evalExpr (E.push l) c; pure (isTrue v))
     let names := proj.flatMap (fun p => match p with
@@ -544,7 +604,7 @@ def evalSetExpr (E : EEnv) : SetExpr → EM (List String × List (List Val × Op
     let out ←
       if aggregated then do
         let wanted := groupBy.filterMap bareNameE
-        let keyed ← rows.mapM (fun l => do
+        let keyed ← rows.mapE (fun l => do
           let items ← evalNamedItems (E.push l) wanted proj
           let k ← evalGroupKey (E.push l) items groupBy
           pure (k, l))
@@ -553,13 +613,13 @@ def evalSetExpr (E : EEnv) : SetExpr → EM (List String × List (List Val × Op
             if acc.any (fun g => rowSame g.1 kl.1) then acc.map (fun g => if rowSame g.1 kl.1 then (g.1, g.2 ++ [kl.2]) else g)
             else acc ++ [(kl.1, [kl.2])]) [])
         let groups := if groups.isEmpty && groupBy.isEmpty then [([], [])] else groups
-        groups.mapM (fun g => do
+        groups.mapE (fun g => do
           let rep := g.2.headD []
           let Eg : EEnv := { (E.push rep) with group := some g.2 }
           let vals ← evalProj Eg rep proj
           pure (vals, some Eg))
       else
-        rows.mapM (fun l => do
+        rows.mapE (fun l => do
           let vals ← evalProj (E.push l) l proj
           pure (vals, some (E.push l)))
     let out := if distinct then dedupRows out else out
@@ -635,20 +695,11 @@ def evalQuery (E : EEnv) : Query → EM Table
     let ctes' ← evalCtes E recursive ctes
     let E1 : EEnv := { E with ctes := ctes' }
     let (names, rows) ← evalSetExpr E1 body
-    let rows ←
-      if orderBy.isEmpty then pure rows else do
-        let keyed ← rows.mapM (fun r => do let k ← evalOrderKeys names r orderBy; pure (k, r))
-        if !keysComparable (keyed.map (·.1)) then .error (.typing "ORDER BY over values of different types") else
-        pure ((sortBy (fun a b => keysLe a.1 b.1) keyed).map (·.2))
+    let keyed ← rows.mapE (fun r => do let k ← evalOrderKeys names r orderBy; pure (k, r))
+    let rows ← orderRows keyed
     let off ← evalOpt { E1 with levels := [] } offset
     let lim ← evalOpt { E1 with levels := [] } limit
-    let rows ← match off with
-      | some v => do let k ← intArg v; pure (rows.drop k)
-      | none => pure rows
-    let rows ← match lim with
-      | some .null => pure rows
-      | some v => do let k ← intArg v; pure (rows.take k)
-      | none => pure rows
+    let rows ← cutRows off lim rows
     pure ⟨names, rows.map (·.1)⟩
 termination_by q => (sizeOf q, 0)
 end
@@ -658,5 +709,44 @@ def eval (db : Db) (s : Stmt) (params : List (String × Val)) : EM Table :=
   match s with
   | .query q => evalQuery ⟨db, params, [], [], none⟩ q
   | .merge .. => .error (.unmodelled "merge")
+
+end Dawgs.Sql
+
+namespace Dawgs.Sql
+open Dawgs
+
+def kindNats : List Val → List Nat
+  | [] => []
+  | .int x :: vs => x.toNat :: kindNats vs
+  | _ :: vs => kindNats vs
+
+def allNull : List Val → Bool
+  | [] => true
+  | .null :: vs => allNull vs
+  | _ :: _ => false
+
+/-- composite values as graph entities (`rs` = the already converted fields) -/
+def rowToR (ty : String) (vs : List Val) (rs : List RVal) : RVal :=
+  match ty, vs, rs with
+  | "nodecomposite", [.int i, .arr ks, .jsonb (.obj ps)], _ => .node i (kindNats ks) (Json.toRKvs ps)
+  | "edgecomposite", [.int i, .int s, .int e, .int k, .jsonb (.obj ps)], _ => .rel i s e k.toNat (Json.toRKvs ps)
+  | "pathcomposite", [.arr _, .arr _], [.list ns, .list es] => .path ns es
+  | _, _, _ => if allNull vs then .null else .list rs
+
+mutual
+/-- what the client sees of an SQL value (jsonb scalars decoded, composites as graph entities) -/
+def valToR : Val → RVal
+  | .null => .null
+  | .bool b => .bool b
+  | .int i => .num ⟨i, 0⟩
+  | .num d => .num d.normalize
+  | .text s => .str s
+  | .jsonb j => Json.toR j
+  | .arr vs => .list (valsToR vs)
+  | .row ty vs => rowToR ty vs (valsToR vs)
+def valsToR : List Val → List RVal
+  | [] => []
+  | v :: vs => valToR v :: valsToR vs
+end
 
 end Dawgs.Sql
